@@ -63,3 +63,26 @@ package tmmirror
 //@   rely after Mirror.viewLookupRequests snapshot-proofs-verified: snapshotOK(curPrevoteState.PrevoteProofs)
 //@   loop 2 invariant snapshot-stays-verified: snapshotOK(curProofs) && voteUpdates != nil && fresh(voteUpdates)
 //@   modifies memory except Mirror, ghost pbits
+
+// ---- proposed headers (C04): what the mirror hands to the kernel extends the header the kernel is committing ----
+// The kernel reports, with its check response, the hash the proposed header has to name as its predecessor
+// (the committing header's hash for the voting and next-round views; nothing at the initial height).
+//@ chaninv Mirror.addPHRequests(v): v.Header.Height == m.initialHeight || checkResp.PrevBlockHash == nil || bytes(v.Header.PrevBlockHash) == bytes(checkResp.PrevBlockHash)
+//@ iface tmconsensus.SignatureScheme.WriteProposalSigningContent(s, w, h, round, annotations)
+//@   modifies nothing
+//@ iface gcrypto.CommonMessageSignatureProofScheme.ValidateFinalizedProof(sch, proof, hashesBySignContent)
+//@   requires candidate-keys-present: len(proof.Keys) > 0
+//@   ensures result0 == nil || fresh(result0)
+//@   modifies nothing
+// What the kernel reports with an "acceptable" check: a previous validator set, when it reports one, has positive total power.
+//@ func Mirror.HandleProposedHeader
+//@   property C04 C09
+//@   option explicit-panics allowed
+//@   option frame off
+//@   requires m.hashScheme != nil && m.sigScheme != nil && m.cmspScheme != nil && m.vs != nil && m.rs != nil
+//@   rely after Mirror.phCheckRequests previous-validators-have-power: (len(response.PrevValidatorSet.PubKeys) == 0 ||
+//@       psum(response.PrevValidatorSet.Validators, allbits(), len(response.PrevValidatorSet.Validators)) > 0) &&
+//@       psum(response.PrevValidatorSet.Validators, allbits(), len(response.PrevValidatorSet.Validators)) <= MAXU64
+//@   modifies heap
+//@   loop 3 invariant available-so-far: 0 <= rangeindex + 1 && rangeindex + 1 <= len(prevVals) && availableVotePower == psum(prevVals, allbits(), rangeindex + 1) &&
+//@       prevBlockVotePower <= availableVotePower
